@@ -32,8 +32,9 @@ type pktIn struct {
 	S uint32 `json:"s"`
 }
 type evIn struct {
-	K string `json:"k"` // p | rot | status | query
-	I int    `json:"i,omitempty"`
+	K  string `json:"k"` // p | rot | status | query
+	I  int    `json:"i,omitempty"`
+	In bool   `json:"in,omitempty"` // packet fetched while the lock of the directly preceding rot / status / query is held
 }
 type input struct {
 	Pkts []pktIn `json:"pkts"`
@@ -164,6 +165,11 @@ func (b *builder) pkt(d []byte, t uint8, s uint32) *builder {
 	b.in.Evs = append(b.in.Evs, evIn{K: "p", I: i})
 	return b
 }
+func (b *builder) pktIn(d []byte, t uint8, s uint32) *builder {
+	b.pkt(d, t, s)
+	b.in.Evs[len(b.in.Evs)-1].In = true
+	return b
+}
 func (b *builder) ev(k string) *builder {
 	b.in.Evs = append(b.in.Evs, evIn{K: k})
 	return b
@@ -231,6 +237,17 @@ func fixedCases() []input {
 		}
 		out = append(out, b.ev("rot").in)
 	}
+	// packets fetched while the lock is held (local buffer path): IPv6 / IPv4 outgoing, inbound TCP with flags exactly
+	// 0x04, inbound ICMPv6 type 4 - direction must come from the packet type, not from the aux byte
+	{
+		web, ssh, ic := convs[8], convs[0], convs[11]
+		for _, w := range []string{"rot", "status", "query"} {
+			out = append(out, newBuilder().pkt(mkPkt(web, false, 0x10, 0, web.cport), 0, 70).ev(w).
+				pktIn(mkPkt(web, true, 0x10, 0, web.cport), 4, 1500).pktIn(mkPkt(web, false, 0x04, 0, web.cport), 0, 41).
+				pktIn(mkPkt(ic, true, 0, 4, 0), 0, 90).pktIn(mkPkt(ic, false, 0, 128, 0), 4, 91).
+				pktIn(mkPkt(ssh, true, 0x04, 0, ssh.cport), 0, 42).pktIn(mkPkt(ssh, false, 0x10, 0, ssh.cport), 4, 43).ev("rot").in)
+		}
+	}
 	return out
 }
 
@@ -271,68 +288,78 @@ func gen(r *vhlib.Rand, i int, o vhlib.Opts) any {
 	if o.Tier == "thorough" || o.Search {
 		nseg = 2 + r.Intn(5)
 	}
+	onePkt := func(inWindow bool) {
+		ci := r.Intn(nc)
+		rev := r.Bool()
+		if lastC >= 0 && r.Chance(45) {
+			ci, rev = lastC, lastRev // another packet of the same conversation in the same direction
+		} else if lastC >= 0 && r.Chance(25) {
+			ci, rev = lastC, !lastRev // the answer
+		}
+		lastC, lastRev = ci, rev
+		c := cs[ci]
+		// flags a client / a server really sends (the classifier's heuristics then agree on the orientation
+		// of all conversations with one server, C22: c22_tcp_consistent); conflicting ones are in the fixed cases
+		flags := vhlib.Pick(r, []byte{0x02, 0x10, 0x18, 0x11, 0x04, 0x00, 0x80, 0x81})
+		if rev {
+			flags = vhlib.Pick(r, []byte{0x12, 0x10, 0x18, 0x11, 0x04, 0x00, 0x80, 0x81})
+		}
+		var ity byte
+		if c.proto == 1 {
+			ity = map[bool]byte{false: 8, true: 0}[rev]
+		} else if c.proto == 58 {
+			ity = map[bool]byte{false: 128, true: 129}[rev]
+		}
+		cport := c.cport
+		if r.Chance(25) && !noVary[ci] {
+			cport += uint16(1 + r.Intn(2))
+		}
+		if r.Chance(25) {
+			flags = vhlib.Pick(r, []byte{0x10, 0x18, 0x04}) // mid-stream packet without SYN
+		}
+		d := mkPkt(c, rev, flags, ity, cport)
+		switch r.Intn(30) {
+		case 0:
+			if !c.v6 {
+				d[6], d[7] = 0x20, byte(1+r.Intn(255))
+			}
+		case 1:
+			if hdr := map[bool]int{false: 20, true: 40}[c.v6]; len(d)-5 >= hdr {
+				d = d[:len(d)-5]
+			}
+		case 2:
+			d[0] = 0x55
+		}
+		// packet type (direction w.r.t. the interface) is a dimension of its own: inbound 0 / outgoing 4, rarely others
+		t := vhlib.Pick(r, []uint8{0, 4})
+		if r.Chance(6) {
+			t = vhlib.Pick(r, []uint8{1, 2, 3, 255})
+		}
+		sz := uint32(40 + r.Intn(1460))
+		if r.Chance(4) {
+			sz = vhlib.Pick(r, []uint32{0, 1, 65535, 0xffffffff})
+		}
+		if inWindow {
+			b.pktIn(d, t, sz)
+		} else {
+			b.pkt(d, t, sz)
+		}
+	}
 	for s := 0; s < nseg; s++ {
 		np := r.Intn(7)
 		if r.Chance(15) {
 			np = 0 // silent interval
 		}
 		for k := 0; k < np; k++ {
-			ci := r.Intn(nc)
-			rev := r.Bool()
-			if lastC >= 0 && r.Chance(45) {
-				ci, rev = lastC, lastRev // another packet of the same conversation in the same direction
-			} else if lastC >= 0 && r.Chance(25) {
-				ci, rev = lastC, !lastRev // the answer
-			}
-			lastC, lastRev = ci, rev
-			c := cs[ci]
-			// flags a client / a server really sends (the classifier's heuristics then agree on the orientation
-			// of all conversations with one server, C22: c22_tcp_consistent); conflicting ones are in the fixed cases
-			flags := vhlib.Pick(r, []byte{0x02, 0x10, 0x18, 0x11})
-			if rev {
-				flags = vhlib.Pick(r, []byte{0x12, 0x10, 0x18, 0x11})
-			}
-			var ity byte
-			if c.proto == 1 {
-				ity = map[bool]byte{false: 8, true: 0}[rev]
-			} else if c.proto == 58 {
-				ity = map[bool]byte{false: 128, true: 129}[rev]
-			}
-			cport := c.cport
-			if r.Chance(25) && !noVary[ci] {
-				cport += uint16(1 + r.Intn(2))
-			}
-			if r.Chance(25) {
-				flags = vhlib.Pick(r, []byte{0x10, 0x18}) // mid-stream packet without SYN
-			}
-			d := mkPkt(c, rev, flags, ity, cport)
-			switch r.Intn(30) {
-			case 0:
-				if !c.v6 {
-					d[6], d[7] = 0x20, byte(1+r.Intn(255))
-				}
-			case 1:
-				if hdr := map[bool]int{false: 20, true: 40}[c.v6]; len(d)-5 >= hdr {
-					d = d[:len(d)-5]
-				}
-			case 2:
-				d[0] = 0x55
-			}
-			t := uint8(0)
-			if rev != r.Chance(10) {
-				t = 4
-			}
-			if r.Chance(5) {
-				t = vhlib.Pick(r, []uint8{1, 2, 3, 255})
-			}
-			sz := uint32(40 + r.Intn(1460))
-			if r.Chance(4) {
-				sz = vhlib.Pick(r, []uint32{0, 1, 65535, 0xffffffff})
-			}
-			b.pkt(d, t, sz)
+			onePkt(false)
 		}
 		if s < nseg-1 || r.Chance(60) {
 			b.ev(vhlib.Pick(r, []string{"rot", "rot", "rot", "rot", "status", "query"}))
+			if r.Chance(50) { // packets fetched while the lock is held: they go through the local buffer
+				for k := 1 + r.Intn(3); k > 0; k-- {
+					onePkt(true)
+				}
+			}
 		}
 	}
 	return b.in
@@ -487,8 +514,17 @@ func run(raw json.RawMessage, o vhlib.Opts) (*vhlib.Case, error) {
 			if v := b[0] >> 4; (v == 4 && len(b) < 20) || (v == 6 && len(b) < 40) {
 				return nil, fmt.Errorf("packet %d is shorter than its fixed header (the parser would panic)", e.I)
 			}
-			s.Evs = append(s.Evs, vsrc.Ev{K: "p", D: p.D, T: p.T, S: p.S})
-			cevs = append(cevs, fmt.Sprintf("CP %d", e.I))
+			if e.In {
+				if n := len(s.Evs); n == 0 || s.Evs[n-1].K != "unlock" {
+					return nil, fmt.Errorf("in-window packet %d does not follow a lock window", e.I)
+				}
+				s.Evs = append(s.Evs[:len(s.Evs)-1], vsrc.Ev{K: "p", D: p.D, T: p.T, S: p.S}, vsrc.Ev{K: "unlock"})
+				cevs = append(cevs[:len(cevs)-1], fmt.Sprintf("CP %d", e.I), "CU")
+				tags[fmt.Sprintf("in-window-v%d-type%d", b[0]>>4, p.T)] = true
+			} else {
+				s.Evs = append(s.Evs, vsrc.Ev{K: "p", D: p.D, T: p.T, S: p.S})
+				cevs = append(cevs, fmt.Sprintf("CP %d", e.I))
+			}
 			tags[fmt.Sprintf("v%d", b[0]>>4)] = true
 		case "rot":
 			s.Evs = append(s.Evs, vsrc.Ev{K: "lock", W: "writeout"}, vsrc.Ev{K: "unlock"})
